@@ -29,7 +29,8 @@ open XpmVerif.Ident XpmVerif.Serial
     source restores (`reloadNode`: see `load_serialize_exact` for when this is the identity).
     Hypotheses (`NodeOk`): the class of each needed node is in the library with the node's
     declarations, argument names are distinct, required arguments have no default (both enforced by
-    `Argument.__init__`), and no dict value has a key `"type"` (finding F9, see `dict_type_key_witness`). -/
+    `Argument.__init__`).  Dictionaries with a key `"type"` are included: they are written wrapped
+    (`dict_type_key_round_trip`; finding F9, fixed by 738540e, see `dict_type_key_witness` for the behaviour before). -/
 theorem load_serialize_iso (fl : Flags) (lib : List Cls) (sg : SGraph) (roots : List Nat)
     (hwf : WF sg.g) (hr : ∀ r ∈ roots, r < sg.g.size)
     (hok : ∀ n, Needed sg.g roots n → NodeOk lib sg n) :
@@ -99,12 +100,12 @@ theorem reload_identifier_defaults_kept {D : Type} (hc : HC D) (fl : Flags) (lib
 /-- **State dictionaries**: `from_state_dict (state_dict v)` gives back the structure `v` (same
     references) together with the loaded objects of `load_serialize_iso`. -/
 theorem state_dict_round_trip (fl : Flags) (lib : List Cls) (sg : SGraph) (v : Val)
-    (hwf : WF sg.g) (hk : noTypeKey v = true) (hr : ∀ r ∈ cfgRefs v, r < sg.g.size)
+    (hwf : WF sg.g) (hr : ∀ r ∈ cfgRefs v, r < sg.g.size)
     (hok : ∀ n, Needed sg.g (cfgRefs v) n → NodeOk lib sg n) :
     ∃ L, fromStateDict fl lib (stateDict fl lib sg v) = .ok (L, v) ∧
       ∀ n, Needed sg.g (cfgRefs v) n →
         lookupObj n L = some { cname := sg.cls n, node := reloadNode fl (sg.g.node n) } := by
-  obtain ⟨L, hl, _, hn⟩ := fromStateDict_stateDict fl lib sg v hwf hk hr hok
+  obtain ⟨L, hl, _, hn⟩ := fromStateDict_stateDict fl lib sg v hwf hr hok
   obtain ⟨_, hiff, _, _⟩ := serialOrder_spec sg.g (cfgRefs v) hwf hr
   exact ⟨L, hl, fun n h => hn n ((hiff n).2 h)⟩
 
@@ -143,25 +144,24 @@ theorem second_generation_exact {D : Type} (hc : HC D) (fl : Flags) (lib : List 
   have hroots : ∀ r ∈ [root], r < sg.g.size := by intro r h; simp at h; subst h; exact hr
   exact ⟨reloadTwice_exact fl lib sg [root] hwf hroots hok hm hi, reloadTwice_fullId hc fl lib sg root hwf hr hok hm hi hdn⟩
 
-/-- **Every value survives the JSON encoding** (all type constructors, any nesting): decoding the
-    encoding of a value gives the value back, data paths included. -/
-theorem value_round_trip (ids : List Nat) (isData : Bool) (v : Val) (hk : noTypeKey v = true)
+/-- **Every value survives the JSON encoding** (all type constructors, any nesting, dictionaries with a key
+    `"type"` at any depth included): decoding the encoding of a value gives the value back, data paths included
+    (without a save directory; with one: `C12.datapath_round_trip`). -/
+theorem value_round_trip (ids : List Nat) (isData : Bool) (v : Val)
     (hr : ∀ m ∈ cfgRefs v, m ∈ ids) : decJ ids (encField isData v) = .ok v :=
-  decJ_encField ids isData v hk hr
+  decJ_encField ids isData v hr
 
 /-- **Loaded as runtime objects in the job process, the task code observes exactly the configured
     parameter values**: the values assigned to the runtime objects built from the parameter file of
     `root` are, for every configuration written to the file and every parameter present on it, the
     configured value; a reference is the runtime object of the referenced configuration (C13:
-    exactly one per configuration).  (Tags travel as a plain JSON member next to the definitions and
-    are compared by the correspondence check only.) -/
+    exactly one per configuration).  (Tags: `C12.tags_round_trip`.) -/
 theorem instances_see_values (fl : Flags) (lib : List Cls) (sg : SGraph) (root : Nat)
-    (hwf : WF sg.g) (hr : root < sg.g.size)
-    (hk : ∀ n, Needed sg.g [root] n → ∀ a ∈ (sg.g.node n).args, noTypeKey a.value = true) :
+    (hwf : WF sg.g) (hr : root < sg.g.size) :
     instanceValues (serialize fl lib sg [root])
       = .ok ((serialOrder sg.g [root]).map
           (fun n => (n, ((sg.g.node n).args.filter present).map (fun a => (a.name, a.value))))) :=
-  instanceValues_serialize fl lib sg root hwf hr hk
+  instanceValues_serialize fl lib sg root hwf hr
 
 /-! ### the hypotheses are needed: kernel-checked witnesses of the findings -/
 
@@ -246,16 +246,32 @@ example : DefaultsNeeded (dg 1).g [0] := by
   subst hm1
   exact ⟨0, List.mem_singleton.2 rfl, .step (b := 1) (by decide) (.refl 1)⟩
 
-/-- F9: a dict value with the key `"type"` cannot be loaded (`Unhandled type`), or comes back as
-    another kind of value (`{"type": "path", "value": "x"}` becomes a path). -/
+/-- F9, behaviour before fix 738540e (the items of a dictionary written as they are, `JVal.obj ks …`): a dict
+    value with the key `"type"` cannot be loaded (`Unhandled type`), or comes back as another kind of value
+    (`{"type": "path", "value": "x"}` becomes a path) — the reader is the current one. -/
 theorem dict_type_key_witness :
-    (match decJ [] (encJ (.dict [kType] [.str [122, 122]])) with
+    (match decJ [] (.obj [kType] [.str [122, 122]]) with
      | .error .unhandledType => true | _ => false) = true ∧
-    (match decJ [] (encJ (.dict [kType, kValue] [.str sPath, .str [120]])) with
-     | .ok (.path s) => s == [120] | _ => false) = true ∧
-    (match load newFlags wlib (serialize newFlags wlib (wg none [] (.dict [kType] [.str [122, 122]])) [0]) with
-     | .error .unhandledType => true | _ => false) = true := by
+    (match decJ [] (.obj [kType, kValue] [.str sPath, .str [120]]) with
+     | .ok (.path s) => s == [120] | _ => false) = true := by
   decide
+
+/-- F9 repaired: the same dictionaries — and a dictionary that imitates the wrapper itself, `{"type": "dict",
+    "value": "x"}`, and one nested in a list inside a wrapped dictionary — come back as themselves, also through
+    `serialize`/`load` of a graph that holds one. -/
+theorem dict_type_key_round_trip :
+    decJ [] (encJ (.dict [kType] [.str [122, 122]])) = .ok (.dict [kType] [.str [122, 122]]) ∧
+    decJ [] (encJ (.dict [kType, kValue] [.str sPath, .str [120]])) = .ok (.dict [kType, kValue] [.str sPath, .str [120]]) ∧
+    decJ [] (encJ (.dict [kType, kValue] [.str sDict, .str [120]])) = .ok (.dict [kType, kValue] [.str sDict, .str [120]]) ∧
+    decJ [] (encJ (.dict [kValue, kType] [.list [.dict [kType] [.int 1]], .none]))
+      = .ok (.dict [kValue, kType] [.list [.dict [kType] [.int 1]], .none]) ∧
+    (match load newFlags wlib (serialize newFlags wlib (wg none [] (.dict [kType] [.str [122, 122]])) [0]) with
+     | .ok l =>
+       (match ((lookupObj 0 l).map (fun o => o.node.args.map (·.value)) : Option (List Val)) with
+        | some [Val.ref 1, Val.dict [k] [Val.str s]] => k == kType && s == [122, 122]
+        | _ => false)
+     | .error _ => false) = true :=
+  ⟨decJ_encJ [] _ (by decide), decJ_encJ [] _ (by decide), decJ_encJ [] _ (by decide), decJ_encJ [] _ (by decide), by decide⟩
 
 /-- non-vacuity of the second generation: a task output (node 1 produced by node 0 … here the link
     1 → 2) keeps its task link through two generations. -/
@@ -283,10 +299,7 @@ example : NodeOk wlib (wg none [2] (.dict [[97]] [.int 1])) 0 :=
     req := by
       intro a ha
       simp [wg, Graph.node] at ha
-      rcases ha with h | h <;> subst h <;> simp,
-    keys := by
-      intro a ha
-      simp [wg, Graph.node] at ha
-      rcases ha with h | h <;> subst h <;> decide }
+      rcases ha with h | h <;> subst h <;> simp
+  }
 
 end XpmVerif.C12
